@@ -107,5 +107,5 @@ def run(ctx):
                'non-ASCII case folding is outside the claim',
                'util.lower lru_cache bypassed (pure function)',
                'CrossHair 0.0.110 models (with vlib/chfix.py) trusted for "exhaustive"; counterexamples replayed')
-    operator_lemmas(ctx)
+    ctx.lemma(operator_lemmas, 'operator_lemmas')
     ctx.run_e1('harness.c01', CONDS, FUNCS)
